@@ -16,6 +16,7 @@ import (
 	"github.com/grafana/carbon-relay-ng/matcher"
 	"github.com/grafana/carbon-relay-ng/rewriter"
 	"github.com/grafana/carbon-relay-ng/table"
+	"github.com/grafana/carbon-relay-ng/validate"
 	m20 "github.com/metrics20/go-metrics20/carbon20"
 )
 
@@ -237,6 +238,53 @@ func init() {
 			}
 			v := reflect.ValueOf(&m).Elem()
 			emit("%s %s", hexOrDash(v.FieldByName("prefixFromRegex").Bytes()), dumpRe(re.Simplify()))
+		})
+	}
+}
+
+// concurrent order validation (C19): `run <goroutines> <ops per goroutine> <names> <tsrange> <seed>`
+// every goroutine offers pseudo-random (name, ts) pairs; prints per name the accepted timestamps of each goroutine in its own order
+func init() {
+	subs["ordconc"] = func(args []string) {
+		scanLines(func(f []string, raw string) {
+			g, _ := strconv.Atoi(f[1])
+			n, _ := strconv.Atoi(f[2])
+			names, _ := strconv.Atoi(f[3])
+			tsr, _ := strconv.Atoi(f[4])
+			seed, _ := strconv.Atoi(f[5])
+			validate.VerifReset()
+			acc := make([][][]uint32, g) // goroutine -> name -> accepted ts
+			done := make(chan bool)
+			for gi := 0; gi < g; gi++ {
+				acc[gi] = make([][]uint32, names)
+				go func(gi int) {
+					x := uint64(seed*1000 + gi + 1)
+					for i := 0; i < n; i++ {
+						x = x*6364136223846793005 + 1442695040888963407
+						nm := int((x >> 33) % uint64(names))
+						ts := uint32((x>>20)%uint64(tsr)) + 1
+						key := []byte("name" + strconv.Itoa(nm))
+						if validate.Ordered(key, ts) == nil {
+							acc[gi][nm] = append(acc[gi][nm], ts)
+						}
+					}
+					done <- true
+				}(gi)
+			}
+			for gi := 0; gi < g; gi++ {
+				<-done
+			}
+			for nm := 0; nm < names; nm++ {
+				var parts []string
+				for gi := 0; gi < g; gi++ {
+					var s []string
+					for _, t := range acc[gi][nm] {
+						s = append(s, strconv.Itoa(int(t)))
+					}
+					parts = append(parts, strings.Join(s, ","))
+				}
+				emit("name %d %s", nm, strings.Join(parts, ";"))
+			}
 		})
 	}
 }
